@@ -479,3 +479,72 @@ class _H:
 SUBCHECKS = {"init": _S(explore_init, 8), "predict": _S(explore_predict, 8), "correct": _S(explore_correct, 8), "history": _H()}
 REPLAY = {"init": lambda c: explore_init(c).fails, "predict": lambda c: explore_predict(c).fails,
           "correct": lambda c: explore_correct(c).fails, "history": lambda c: explore_history(c).fails}
+
+
+# ---------------- the documented build option of the equation set ---------------------------------------------------------------------
+def explore_options(case):
+    """`algorithms.eqs(results_dir=...)` (the form the repository's own derive test uses; it additionally writes the graph of F) must
+    return the same step functions as `algorithms.eqs()`: every function evaluated on the probe inputs and on lattice states"""
+    import shutil
+    import tempfile
+    from .. import order
+    res = core.Result()
+    tmp = tempfile.mkdtemp(prefix="c11o_")
+    try:
+        with contextlib.redirect_stdout(io.StringIO()):
+            from cyecca.estimate.attitude import algorithms
+            try:
+                alt = algorithms.eqs(results_dir=tmp)["mrp"]
+            except Exception as ex:
+                res.count("evaluations")
+                res.fail(site="mrp.eqs", clause="operation_raises", cls="results_dir", detail=dict(error="%s: %s" % (type(ex).__name__, str(ex)[:200])), sub="options", case=case)
+                return res
+        base = eqs()
+        for name in sorted(base):
+            f0, f1 = base[name], alt.get(name)
+            if not isinstance(f0, ca.Function):
+                continue
+            arglists = [order._fn_inputs(f0, 0), order._fn_inputs(f0, 1)]
+            if name in ("predict", "correct_accel", "correct_mag"):
+                x = np.concatenate([ref.mrp_of(np.array([0.4, -0.7, 1.1])), [0.02, 0, -0.03]])
+                for W in (W_SMALL, W_DENSE):
+                    if name == "predict":
+                        arglists.append([0.0, x, Wdm(W), np.array([0.3, -0.2, 0.5]), 1e-3, 1e-5, 0.01])
+                    elif name == "correct_accel":
+                        arglists.append([x, Wdm(W), sens_accel(ref.R_from_mrp(x[:3]) @ ref.rot(np.array([0.1, 0, 0]))), G0, np.zeros(3), STD_ACC, STD_ACC_OM, BETA_ACC])
+                    else:
+                        arglists.append([x, Wdm(W), sens_mag(ref.R_from_mrp(x[:3]), 0.0, 0.3, 0.1), 0.0, STD_MAG, BETA_MAG])
+            for k, args in enumerate(arglists):
+                res.count("evaluations")
+                res.nontrivial.add(hash((name, k)))
+                if f1 is None:
+                    res.fail(site="mrp." + name, clause="option_variant_offers_same_functions", cls="results_dir", detail=dict(missing=name), sub="options", case=case)
+                    break
+                a = [np.array(ca.DM(ca.densify(o)), dtype=float) for o in f0.call([ca.DM(v) if not isinstance(v, ca.DM) else v for v in args])]
+                b = [np.array(ca.DM(ca.densify(o)), dtype=float) for o in f1.call([ca.DM(v) if not isinstance(v, ca.DM) else v for v in args])]
+                res.outcomes.add(hash(tuple(np.round(np.nan_to_num(x_), 9).tobytes() for x_ in a)))
+                same = len(a) == len(b) and all(x_.shape == y_.shape and np.array_equal(np.isnan(x_), np.isnan(y_)) and np.allclose(np.nan_to_num(x_), np.nan_to_num(y_), rtol=1e-12, atol=1e-14)
+                                               for x_, y_ in zip(a, b))
+                if not same:
+                    res.fail(site="mrp." + name, clause="option_variant_returns_same_function", cls="results_dir", detail=dict(function=name, input_index=k, default=a[:2], with_option=b[:2]), sub="options", case=case)
+                    break
+    finally:
+        shutil.rmtree(tmp, ignore_errors=True)
+    res.count("states", 1)
+    res.count("transitions", 1)
+    res.samples.append(dict(option="results_dir"))
+    return res
+
+
+class _Opt:
+    chunks = 1
+
+    def cases(self, tier, seed):
+        return [dict(sub="options", tier=tier, seed=seed)]
+
+    def run(self, case):
+        return explore_options(case)
+
+
+SUBCHECKS["options"] = _Opt()
+REPLAY["options"] = lambda c: explore_options(c).fails
